@@ -546,11 +546,12 @@ Section Update.
                          | None => Err (XInternal IKey)
                          | Some m4 =>
                              let l5 := put_m l4 new_mpath m4 in
-                             '(w2, l6, _) <- save_manifest w1 l5 new_mpath false ;;
+                             (* the top-level Manifest is known under its new name before it is written (so it is signed) *)
+                             let l5' := if ustr_eqb mpath (l_top l5) then set_top l5 new_mpath else l5 in
+                             '(w2, l6, _) <- save_manifest w1 l5' new_mpath false ;;
                              let l7 := set_loaded l6 (dict_del mpath (l_loaded l6)) in
                              w3 <- unlink_file w2 (pjoin rootdir mpath) ;;
-                             let l8 := if ustr_eqb mpath (l_top l7) then set_top l7 new_mpath else l7 in
-                             Ok (w3, l8, fixed', renamed ++ [(mpath, new_mpath)])
+                             Ok (w3, l7, fixed', renamed ++ [(mpath, new_mpath)])
                          end
                      | None => Ok (w1, l4, fixed', renamed)
                      end
